@@ -202,5 +202,6 @@ Definition check_C10 (line : list Z) : list Z :=
   | None => verdict V_MALFORMED 0 (-1) []
   | Some ((false, [c]), _) => match check_case c with (v, t, p, d) => verdict v t p d end
   | Some ((false, _), _) => verdict V_MALFORMED 0 (-1) []
+  | Some ((true, []), _) => verdict V_OK 0 (-1) []      (* a history without steps: trivial (tag 0) *)
   | Some ((true, cs), _) => match run_steps cs 0%Z 0%Z T_HISTORY with (v, t, p, d) => verdict v t p d end
   end.
